@@ -27,12 +27,20 @@ Acts(s) ==
            chain |-> "ethereum", addr |-> "0xabc", payload |-> "p1"] : ks \in ProperKeeps(4)}
     \cup {[name |-> "ValidateMessage", caller |-> "app1", key |-> "k1", src |-> "sA", ph |-> "p1", via |-> "direct", auth |-> {},
            scopedAuth |-> {"app1"}, keepArgs |-> ks] : ks \in ProperKeeps(5)}
+    \cup {[name |-> "HookOpenWindow"]}
     \cup {[name |-> "CallContract", caller |-> "pr1", via |-> "self", through |-> "none", auth |-> {},
            chain |-> "ethereum", addr |-> "0xabc", payload |-> "p1"]}
 InitState == [Install(Blank("owner0", "op0", 0), "s1") EXCEPT !.deployed = TRUE]
-Init == st = InitState
-Next == \E a \in Acts(st) : st' = Apply(st, a).post
-Step(P(_, _, _)) == \A a \in Acts(st) : P(st, a, Apply(st, a))
+(* `win`: the Upgradable interface's migration window is open (instance-level ghost: not part of Gateway.tla's state,
+   not observable; set by the verification hook).  Every action is explored with the window closed AND open. *)
+WithWin(s, w) == [f \in DOMAIN s \cup {"win"} |-> IF f = "win" THEN w ELSE s[f]]
+ApplyW(s, a) ==
+    IF a.name = "HookOpenWindow"
+    THEN [ok |-> TRUE, why |-> "ok", fails |-> {}, free |-> FALSE, ret |-> "unit", ev |-> <<>>, post |-> [s EXCEPT !.win = TRUE]]
+    ELSE Apply(s, a)
+Init == st = WithWin(InitState, FALSE)
+Next == \E a \in Acts(st) : st' = ApplyW(st, a).post
+Step(P(_, _, _)) == \A a \in Acts(st) : a.name # "HookOpenWindow" => P(st, a, ApplyW(st, a))
 Named(s, a, r) == (a.name \in {"ValidateMessage", "CallContract"} /\ r.ok) => (a.caller \in a.auth \/ a.via = "self")
 Frame(s, a, r) == ~r.ok => r.post = s /\ r.ev = <<>>
 C07_Named == Step(Named)
@@ -45,7 +53,7 @@ Dump ==
     LET acts == SetToSeq(Acts(st)) IN
     PrintT(<<"NODE", ToJson([pre |-> st,
         edges |-> [i \in 1..Len(acts) |->
-            LET r == Apply(st, acts[i]) IN
+            LET r == ApplyW(st, acts[i]) IN
             [act |-> acts[i],
              exp |-> [ok |-> r.ok, why |-> r.why, fails |-> r.fails, free |-> r.free, ret |-> r.ret, ev |-> r.ev],
              post |-> IF r.post = st THEN "same" ELSE r.post]]])>>)
